@@ -21,6 +21,9 @@ def main(argv):
     ap.add_argument("--runs", type=int, default=None)
     ap.add_argument("--workers", type=int, default=None)
     ap.add_argument("--selfcheck", type=int, default=None)
+    ap.add_argument("--session2", default=None,
+                    help="internal (C18): per-call results of the listed "
+                         "sessions executed in another order")
     ap.add_argument("--digests", default=None,
                     help="internal: print digests of the listed run indices")
     a = ap.parse_args(argv)
@@ -35,6 +38,12 @@ def main(argv):
         print(f"HARNESS-ERROR build: {e}")
         return 2
     runner.quiet_fd1()
+    if a.session2 is not None:
+        from .engines import c18_session
+        res = c18_session.session2_main(
+            seed, [int(x) for x in a.session2.split(",") if x != ""])
+        runner.say("SESSION2 " + json.dumps(res))
+        return 0
     if a.digests is not None:
         out = {}
         for i in [int(x) for x in a.digests.split(",") if x != ""]:
